@@ -63,29 +63,27 @@ def rule_test_merged(ctx):
     return _c07_jobs(ctx)["rule_test"]
 
 
-def filter_merged(ctx):
+def _c01_jobs(ctx):
     def build():
+        from ..contexts import run_jobs
+        from .purity import data_record, newinit_guarded_set
         prog = ctx.prog
-        src = join(NONE, mk("inst:data.Data", org=frozenset({("source", 0)}), taint=1, fields=(
-            ("_is_list", BOOL), ("_keys", mk("tuple", elem=AVal(types=frozenset({"json"}), org=frozenset({("source", 1)}), taint=2, hk=True))),
-            ("_values", mk("tuple", elem=AVal(types=frozenset({"json"}), org=frozenset({("source", 1)}), taint=2))))))
-        return run_cases(prog, prog.func("conditions.ConditionLike.filter"),
-                         {"self": obj("conditions.ConditionLike", "cond"), "data": doc_root("data"),
-                          "data_has_paths": const(False), "source_data": src},
-                         {}, CONCRETE_SPLIT)
-    return ctx.cached("filter", build)
-
-
-def get_data_merged(ctx):
-    def build():
-        prog = ctx.prog
+        cfg = {"newinit_guarded": newinit_guarded_set(prog)}
+        cond = obj("conditions.ConditionLike", "cond")
         nomod = mk("inst:datapath.DataPath", org=frozenset({("path", 0)}), fields=(
             ("_DATUM_TYPE", mk("inst:datapath.DataPathDatumType", const=("enum", "datapath.DataPathDatumType", "NONE"))),
             ("_MULTI_TYPE", mk("inst:datapath.DataPathMultiType", const=("enum", "datapath.DataPathMultiType", "NONE"))),
             ("source_data", NONE)))
-        return run_cases(prog, prog.func("datapath.DataPath.get_data"),
-                         {"self": nomod, "data": doc_root("data"), "return_paths": BOOL}, {}, CONCRETE_SPLIT)
-    return ctx.cached("get_data", build)
+        jobs = [
+            ("filter", "conditions.ConditionLike.filter", {"self": cond, "data": doc_root("data"), "data_has_paths": const(False),
+                                                            "source_data": join(NONE, data_record("source"))}, cfg, CONCRETE_SPLIT, None),
+            ("test_all", "conditions.ConditionLike.test_all", {"self": cond, "data": doc_root("data")}, cfg, CONCRETE_SPLIT, None),
+            ("data_filter", "data.Data.filter", {"self": data_record("data"), "condition_like": cond}, cfg, CONCRETE_SPLIT, None),
+            ("get_data", "datapath.DataPath.get_data", {"self": nomod, "data": doc_root("data"), "return_paths": BOOL}, cfg, CONCRETE_SPLIT, None),
+            ("data_get", "data.Data.get", {"self": data_record("data"), "path_parts": mk("tuple", tup=(nomod,)), "return_paths": BOOL}, cfg, CONCRETE_SPLIT, None),
+        ]
+        return run_jobs(prog, jobs)
+    return ctx.cached("c01jobs", build)
 
 
 def raise_rule(name, merged, exemptions, allowed=(), floor=1, only_funcs=None, what=""):
@@ -132,4 +130,60 @@ def raise_rule(name, merged, exemptions, allowed=(), floor=1, only_funcs=None, w
             witness=[f"{fr[0]} @ {fr[1]}: {fr[2]}" for fr in w],
         ))
     r.notes.append(f"cases analysed: {merged.cases}; contexts {merged.contexts}; functions reached {len(merged.functions)}")
+    return r
+
+
+# ------------------------------------------------------------------------------------------
+# C19: malformed specs are rejected with spec errors, never internal ones
+# ------------------------------------------------------------------------------------------
+C19_ALLOWED = {"TypeError", "ValueError", "MalformedConditionLikeSpec", "MalformedDataPathSpec", "MalformedRuleSpec",
+               "MalformedContainerItemSpec"}
+RULE_FIELDS = ("spec['path']", "spec['condition']", "schema_dat['rules']")
+
+
+def rule_c19_raises(ctx):
+    from .purity import parse_jobs
+    merged, labels = parse_jobs(ctx)
+    r = RuleResult("R-RAISE/C19", floor=25)
+    sites = {}
+    escaping = {}
+    for l in labels:
+        m = merged[l]
+        for e in m.by_kind("mayraise"):
+            if e.detail.get("tainted") or e.detail.get("reason") == "explicit raise":
+                sites.setdefault((e.detail["exc"], e.func, e.text), e)
+        for (exc, ofunc, otext), (w, t) in m.raises.items():
+            if t or w[-1][3] == "explicit raise":
+                escaping.setdefault((exc, ofunc, otext), (w, l))
+    for k, e in sorted(sites.items()):
+        exc, func, text = k
+        inst = {"site": f"{func}: {text}", "may_raise": exc, "reason": e.detail.get("reason", "")}
+        r.instances.append(inst)
+        if k not in escaping:
+            inst["verdict"] = "converted / covered by a handler on every analysed call path"
+            r.ok()
+            continue
+        w, entry = escaping[k]
+        if exc in C19_ALLOWED:
+            inst["verdict"] = "escapes as an allowed spec error"
+            r.ok()
+            continue
+        if exc == "KeyError" and any(text.endswith(f) or f in text for f in RULE_FIELDS):
+            inst["verdict"] = "KeyError naming a mandatory rule field (allowed by the property)"
+            r.ok()
+            continue
+        if exc == "NotImplementedError" and func == "utils.get_func_args_by_kind":
+            inst["verdict"] = "exempt: parameter kinds of every DSL constructor are within the three accepted kinds (discharged by R-SIG)"
+            r.exemptions_used.append(inst)
+            r.ok()
+            continue
+        inst["verdict"] = "ESCAPES as an internal error"
+        r.fail(Finding(
+            rule="R-RAISE/C19",
+            key=f"R-RAISE|{exc}|{func}|{text}",
+            where=w[-1][1],
+            message=f"{exc} ({w[-1][3]}) raised at `{text}` in {func} can escape the parser {entry}: a malformed spec would fail with an internal error "
+                    f"instead of a Malformed* / TypeError / ValueError",
+            witness=[f"{fr[0]} @ {fr[1]}: {fr[2]}" for fr in w],
+        ))
     return r
